@@ -16,14 +16,12 @@ import (
 )
 
 type dispatch struct {
-	fn      *ssa.Function
-	arm     [256]string // production label
-	callee  [256]string
-	pos     [256]string
-	handed  [256]bool // the tag is passed on to the callee
-	inCtx   [256]bool
-	tagTerm *Term
-	flow    *Flow
+	fn     *ssa.Function
+	arm    [256]string // production label
+	callee [256]string
+	pos    [256]string
+	handed [256]bool // the tag is passed on to the callee
+	inCtx  [256]bool
 }
 
 // container-level anchors: callee display name -> production label
@@ -71,121 +69,63 @@ func (w *World) tagSymbolOf(fn *ssa.Function) ssa.Value {
 	return nil
 }
 
+// readerBoundaries: the functions that stand for one production each; the
+// dispatch explorer stops at the first one it meets, everything else
+// (extracted helpers) is stepped into.
+func (w *World) readerBoundaries() map[*ssa.Function]string {
+	out := map[*ssa.Function]string{}
+	for _, c := range w.codecs() {
+		if c.Wrap != nil {
+			out[c.Wrap] = c.Name
+		}
+		if c.Dec != nil {
+			out[c.Dec] = c.Name
+		}
+	}
+	for name, label := range calleeProd {
+		if fn := w.role(name); fn != nil {
+			out[fn] = label
+		}
+	}
+	return out
+}
+
 func (w *World) dispatchOf(fn *ssa.Function, ctx ISet) *dispatch {
-	tag := w.tagSymbolOf(fn)
-	if tag == nil {
+	if fn == nil || fn.Blocks == nil {
 		return nil
 	}
-	var f *Flow
 	full := mkSet(0, 255)
 	if ctx == nil {
 		ctx = full
-		f = w.flow(fn)
-	} else {
-		env := Env{}
-		// the context enters through the byte parameter or the int32 flag
-		for _, p := range fn.Params {
-			switch typeStr(p.Type()) {
-			case "byte", "uint8":
-				env["<p:"+p.Name()+">"] = ctx
-			case "int32":
-				env["<p:"+p.Name()+">"] = ctx
-			}
-		}
-		f = w.flowCtx(fn, env)
 	}
-	d := &dispatch{fn: fn, flow: f}
-	tk := f.term(tag)
-	d.tagTerm = tk
-	cs := w.codecs()
-	type cand struct {
-		b      *ssa.BasicBlock
-		set    ISet
-		label  string
-		callee string
-		pos    string
-		handed bool
-	}
-	var cands []cand
-	for _, b := range fn.Blocks {
-		env := f.At(b)
-		if env == nil {
-			continue
-		}
-		if in, ok := tag.(ssa.Instruction); ok && !in.Block().Dominates(b) {
-			continue
-		}
-		s, _ := f.Eval(tk, env)
-		if s == nil || s.Equal(ctx) || s.Equal(full) {
-			continue
-		}
-		// first action in the block
-		var c cand
-		found := false
-		for _, in := range b.Instrs {
-			call, ok := in.(*ssa.Call)
-			if !ok {
-				continue
-			}
-			sc := call.Call.StaticCallee()
-			if sc == nil || !w.inPkg(sc) || w.isTagPredicate(sc) {
-				continue
-			}
-			label := ""
-			for _, cd := range cs {
-				if sc == cd.Wrap || sc == cd.Dec {
-					label = cd.Name
-				}
-			}
-			if label == "" {
-				label = calleeProd[fnName(sc)]
-			}
-			if label == "" {
-				label = "call:" + fnName(sc)
-			}
-			handed := false
-			for _, a := range call.Call.Args {
-				t := f.term(a)
-				for t.K == TConv {
-					t = t.A
-				}
-				if t.Key() == tk.Key() {
-					handed = true
-				}
-			}
-			c = cand{b, s, label, fnName(sc), w.instrPos(call), handed}
-			found = true
-			break
-		}
-		if !found {
-			ret, ok := b.Instrs[len(b.Instrs)-1].(*ssa.Return)
-			if !ok {
-				continue
-			}
-			c = cand{b, s, classifyConstReturn(ret), "", w.instrPos(ret), false}
-		}
-		cands = append(cands, c)
-	}
+	d := &dispatch{fn: fn}
+	bounds := w.readerBoundaries()
+	delete(bounds, fn)
+	any := false
 	for t := 0; t < 256; t++ {
 		if !ctx.Contains(int64(t)) {
 			continue
 		}
 		d.inCtx[t] = true
-		var best *cand
-		for i := range cands {
-			c := &cands[i]
-			if !c.set.Contains(int64(t)) {
-				continue
-			}
-			if best == nil || c.set.Card().Cmp(best.set.Card()) < 0 || (c.set.Card().Cmp(best.set.Card()) == 0 && c.b.Dominates(best.b)) {
-				best = c
-			}
-		}
-		if best == nil {
+		arms := w.pxDispatchTag(fn, t, bounds)
+		switch len(arms) {
+		case 0:
 			d.arm[t] = "none"
-			continue
+		case 1:
+			d.arm[t], d.callee[t], d.pos[t], d.handed[t] = arms[0].Label, arms[0].Callee, arms[0].Pos, arms[0].Handed
+			any = true
+		default:
+			var ls []string
+			for _, a := range arms {
+				ls = append(ls, a.Label)
+			}
+			d.arm[t] = "ambiguous(" + strings.Join(ls, ",") + ")"
+			d.callee[t], d.pos[t] = arms[0].Callee, arms[0].Pos
+			any = true
 		}
-		d.arm[t], d.callee[t], d.pos[t], d.handed[t] = best.label, best.callee, best.pos, best.handed
+	}
+	if !any {
+		return nil
 	}
 	return d
 }
@@ -337,25 +277,37 @@ func (w *World) encoderTagSets() map[string]ISet {
 		if c.Enc == nil {
 			continue
 		}
-		f := w.flow(c.Enc)
-		forms := append(w.litForms(c.Enc), w.bufForms(c.Enc)...)
-		for _, fm := range forms {
-			if fm.IsErr || len(fm.Octets) == 0 {
+		ei := w.encForms(c.Enc)
+		for _, fm := range ei.forms {
+			if fm.IsErr || fm.Unknown || len(fm.Oct) == 0 {
 				continue
 			}
+			sets := []*Term{fm.Oct[0]}
+			for _, t0 := range sets {
+				s, _ := ei.px.evalOver(fm, t0)
+				if s == nil {
+					continue
+				}
+				if s.Equal(single('N')) {
+					out["null"] = out["null"].Union(s)
+					continue
+				}
+				out[name] = out[name].Union(s)
+			}
+		}
+		// chunked encoders: the first octet of a non-final chunk is emitted on the looping path too
+		for _, fm := range w.bufForms(c.Enc) {
+			if len(fm.Octets) == 0 {
+				continue
+			}
+			f := w.flow(c.Enc)
 			s, _ := f.ValueAt(fm.Octets[0], fm.Block)
 			if v, ok := w.constOf(fm.Octets[0]); ok {
 				s = single(v)
 			}
-			if s == nil {
-				continue
+			if s != nil && !s.Equal(single('N')) {
+				out[name] = out[name].Union(s)
 			}
-			// null forms are the null production
-			if s.Equal(single('N')) {
-				out["null"] = out["null"].Union(s)
-				continue
-			}
-			out[name] = out[name].Union(s)
 		}
 	}
 	// container headers: constant / interval arguments of writeBT in the container writers
